@@ -276,7 +276,9 @@ def _session(job):
         sc = r['script']
         sc['observe'] = 'light'
         sc['p_update'] = rng.choice([0.1, 0.3, 0.5])
-        sc['update_kinds'] = rng.sample(['trail_sl', 'tp_ladder', 'sl_ladder', 'liquidate', 'near_tp', 'near_tp'], rng.randint(2, 4))
+        sc['update_kinds'] = rng.sample(['trail_sl', 'tp_ladder', 'sl_ladder', 'liquidate', 'near_tp', 'near_tp', 'add_market', 'add_market'],
+                                        rng.randint(2, 4))
+        sc['on_increased'] = rng.choice(['retarget', 'retarget', None])
         sc['cancel_policy'] = rng.choice(['rnd', 'rnd', 'never', 'always'])
         sc['entry'] = rng.choice(['limit', 'stop', 'ladder', 'mixed', 'near'])
         sc['p_enter'] = rng.choice([0.2, 0.4])
